@@ -362,18 +362,31 @@ def grammar_space(repo=None, extra=None):
 
 
 def reader_rf_format(repo=None):
-    """The file-name and sub-directory formats DigitalRFReader._get_file_list generates."""
+    """The file-name and sub-directory formats DigitalRFReader._get_file_list generates (module constants folded).
+    Returns (module, (format string, BinOp node), (strftime format, call node))."""
     m = pyfront.mod("digital_rf_hdf5", repo)
     fn = m.fn("DigitalRFReader._get_file_list")
+    fold = cfold.Folder(repo)
     fmts = []
     strf = []
     for n in ast.walk(fn):
-        if isinstance(n, ast.BinOp) and isinstance(n.op, ast.Mod) and isinstance(n.left, ast.Constant) \
-                and isinstance(n.left.value, str) and "@" in n.left.value:
-            fmts.append((n.left.value, n))
-        if isinstance(n, ast.Call) and isinstance(n.func, ast.Attribute) and n.func.attr == "strftime":
-            strf.append((pyfront.const(n.args[0]), n))
-    if len(fmts) != 1 or len(strf) != 1:
+        if isinstance(n, ast.BinOp) and isinstance(n.op, ast.Mod):
+            val = None
+            if isinstance(n.left, ast.Constant) and isinstance(n.left.value, str):
+                val = n.left.value
+            elif isinstance(n.left, ast.Name):
+                try:
+                    val = fold.expr("digital_rf_hdf5", n.left)
+                except AnalysisError:
+                    val = None
+            if isinstance(val, str) and "@" in val:
+                fmts.append((val, n))
+        if isinstance(n, ast.Call) and isinstance(n.func, ast.Attribute) and n.func.attr == "strftime" and n.args:
+            try:
+                strf.append((fold.expr("digital_rf_hdf5", n.args[0]), n))
+            except AnalysisError:
+                strf.append((None, n))
+    if len(fmts) != 1 or len(strf) != 1 or strf[0][0] is None:
         raise AnalysisError("DigitalRFReader._get_file_list: expected one file-name %%-format and one strftime, "
                             "found %d / %d" % (len(fmts), len(strf)))
     return m, fmts[0], strf[0]
